@@ -74,7 +74,12 @@ def verdict(index, entry, aspect, chunk=None):
         if paths is None:
             return "undecided", f"instance run {tag} failed: {err}", {}
         keff = m if k is None else k
+        tag0 = tag
         for p in paths:
+            import re as _re
+
+            free = _re.findall(r"\[(numel\([^\]]*)\]", p["res"].describe_path())
+            tag = tag0 + (" and " + ", ".join(free) if free else "")
             if p["blocking"]:
                 b = p["blocking"][0]
                 return "undecided", f"instance run {tag}: construct outside the analysed subset: {b['loc']} `{b['text']}`", {}
@@ -83,6 +88,10 @@ def verdict(index, entry, aspect, chunk=None):
                 return "undecided", f"instance run {tag}: a returning path [{p['res'].describe_path()[-80:]}] differentiates nothing", {}
             n += 1
             if aspect == "partition":
+                so = [e for e in _pipe.evs(p["res"], "unpack") if e.get("axis") == 0 and ("set-order" in (e.get("lo_origin") or []) or "set-order" in (e.get("hi_origin") or []))]
+                if so:
+                    return "violated", (f"for {tag}: the bounds of the row blocks (`{so[0]['text'][:60]}`) are read from a set of integers in iteration order, which is hash-table order, not numeric order "
+                                        "(list({0, 5, 10, 12}) == [0, 10, 12, 5]): for such row counts the blocks are empty, overlapping or out of order"), {"m": m, "k": k}
                 if any(not isinstance(e.get("rowspan"), tuple) for e in sw):
                     return "undecided", f"instance run {tag}: the rows carried by the cotangents of a sweep were lost: {_fmt(sw)}", {}
                 blocks = [_rows(e["rowspan"]) for e in sw]
